@@ -55,22 +55,27 @@ theorem name_norm_injective_up_to_dash (a b : Text) (h : nameKey a = nameKey b) 
         Bool.decide_and]
       refine ⟨?_, ih ys h.2⟩
       have h1 := h.1
-      by_cases hx : x = '-' <;> by_cases hy : y = '-' <;> simp_all
-      · right; exact h1.symm
-      · exact Or.inr (Or.inr ⟨h1, rfl⟩) |> fun _ => by
-          rcases Classical.em (x = y) with e | e
-          · exact Or.inl e
-          · exact absurd h1 (by intro e'; exact e (by simpa using e'))
+      by_cases hx : x = '-'
+      · by_cases hy : y = '-'
+        · left; rw [hx, hy]
+        · simp only [hx, hy, ↓reduceIte] at h1
+          right; left; exact ⟨hx, h1.symm⟩
+      · by_cases hy : y = '-'
+        · simp only [hx, hy, ↓reduceIte] at h1
+          right; right; exact ⟨h1, hy⟩
+        · simp only [hx, hy, ↓reduceIte] at h1
+          left; exact h1
 
 /-! ### whitespace and silent comments between tokens -/
 
 theorem skipLine_body (body r : Text) (h : ∀ c ∈ body, c ≠ '\n') :
     skipLine (body ++ '\n' :: r) = skip r := by
+  unfold skipLine skip
   induction body with
-  | nil => simp [skipLine]
+  | nil => simp [skipM]
   | cons c cs ih =>
     have hc : c ≠ '\n' := h c (by simp)
-    simp only [List.cons_append, skipLine, hc, ↓reduceIte]
+    simp only [List.cons_append, skipM, hc, ↓reduceIte]
     exact ih fun d hd => h d (List.mem_cons_of_mem _ hd)
 
 /-- **Extra whitespace / silent comments in front of a token are invisible** to the separator
@@ -79,56 +84,29 @@ rest as without it. -/
 theorem ws_comment_insensitive (sep rest : Text) (h : Sep sep) : skip (sep ++ rest) = skip rest := by
   induction h with
   | nil => rfl
-  | ws c s hc _ ih => simp only [List.cons_append, skip, hc, ↓reduceIte, ih]
+  | ws c s hc _ ih =>
+    have : skip (c :: s ++ rest) = skip (s ++ rest) := by
+      unfold skip; simp [skipM, hc]
+    rw [this, ih]
   | comment body s hb _ ih =>
-    have : ('/' :: '/' :: body ++ '\n' :: s) ++ rest = '/' :: '/' :: (body ++ '\n' :: (s ++ rest)) := by simp
-    rw [this]
-    simp only [skip]
-    rw [show isWs '/' = false by decide]
-    simp only [Bool.false_eq_true, ↓reduceIte]
-    rw [skipLine_body body (s ++ rest) hb, ih]
+    have h1 : ('/' :: '/' :: body ++ '\n' :: s) ++ rest = '/' :: '/' :: (body ++ '\n' :: (s ++ rest)) := by simp
+    have h2 : skip ('/' :: '/' :: (body ++ '\n' :: (s ++ rest))) = skipLine (body ++ '\n' :: (s ++ rest)) := by
+      unfold skip skipLine
+      simp [skipM, isWs]
+    rw [h1, h2, skipLine_body body (s ++ rest) hb, ih]
 
 example : Sep " \n// note\n\t".toList :=
   .ws ' ' _ (by decide) (.ws '\n' _ (by decide) (.comment " note".toList _ (by decide) (.ws '\t' _ (by decide) .nil)))
 
-/-- what `opt_spacelike` leaves never starts with a blank (it consumed all of them) -/
-theorem skip_no_leading_ws (t : Text) : ∀ c r, skip t = c :: r → isWs c = false := by
-  suffices h : (∀ c r, skip t = c :: r → isWs c = false) ∧ (∀ c r, skipLine t = c :: r → isWs c = false) from h.1
-  induction t with
-  | nil => simp [skip, skipLine]
-  | cons x xs ih =>
-    constructor
-    · intro c r h
-      simp only [skip] at h
-      by_cases hx : isWs x = true
-      · simp only [hx, ↓reduceIte] at h; exact ih.1 c r h
-      · simp only [hx, Bool.false_eq_true, ↓reduceIte] at h
-        by_cases hs : x = '/'
-        · simp only [hs, ↓reduceIte] at h
-          cases xs with
-          | nil => simp at h; rw [← h.1]; decide
-          | cons y ys =>
-            by_cases hy : y = '/'
-            · subst hy
-              simp only at h
-              have := ih.2
-              simp only [skipLine] at this
-              by_cases hn : ('/' : Char) = '\n'
-              · exact absurd hn (by decide)
-              · simp only [hn, ↓reduceIte] at this; exact this c r h
-            · have : (match y :: ys with | '/' :: r => skipLine r | _ => '/' :: y :: ys) = '/' :: y :: ys := by
-                split
-                · next r heq => simp only [List.cons.injEq] at heq; exact absurd heq.1 hy
-                · rfl
-              rw [this] at h
-              simp only [List.cons.injEq] at h; rw [← h.1]; decide
-        · simp only [hs, ↓reduceIte, List.cons.injEq] at h
-          rw [← h.1]; simpa using hx
-    · intro c r h
-      simp only [skipLine] at h
-      by_cases hn : x = '\n'
-      · simp only [hn, ↓reduceIte] at h; exact ih.1 c r h
-      · simp only [hn, ↓reduceIte] at h; exact ih.2 c r h
+/-- a token that starts with neither a blank nor `/` stops the skipper at once: together with
+`ws_comment_insensitive`, `skip (sep ++ tok ++ rest) = tok ++ rest` -/
+theorem skip_stops_at_token (c : Char) (rest : Text) (h1 : isWs c = false) (h2 : c ≠ '/') :
+    skip (c :: rest) = c :: rest := by
+  unfold skip; simp [skipM, h1, h2]
+
+theorem sep_then_token (sep : Text) (c : Char) (rest : Text) (h : Sep sep) (h1 : isWs c = false) (h2 : c ≠ '/') :
+    skip (sep ++ c :: rest) = c :: rest := by
+  rw [ws_comment_insensitive sep (c :: rest) h, skip_stops_at_token c rest h1 h2]
 
 /-! ### replacing a (slash-free) value by a variable that holds it -/
 
@@ -166,7 +144,7 @@ example : eval [] (.add (.num 1) (.num 2)) = some (.num 3) ∧ ("v".toList ∉ (
   decide
 
 /-- as statements: `$x: s; p: C[$x];` emits what `p: C[s];` emits -/
-theorem value_to_variable_stmt (st : State) (c : Ctx) (s : Expr) (x : Text) (rest : List Stmt)
+theorem value_to_variable_stmt (st : State) (c : Ctx) (s : Expr) (x : Text)
     (hx : x ∉ c.fv) (v : Val) (hs : eval st.env s = some v) :
     (exec st [.assign x s, .emit (c.plug (.var x))]).map (·.out) = (exec st [.emit (c.plug s)]).map (·.out) := by
   simp only [exec, hs, value_to_variable st.env c s x v hs hx]
